@@ -334,6 +334,7 @@ pub fn rule_to_tz(rng: &mut Rng, r: &TransitionRule, ext: bool) -> Option<String
 // ---------------------------------------------------------------- TZif writer (harness side)
 
 pub struct Layout {
+    #[allow(dead_code)]
     pub version: u8, // 0, b'2', b'3'
     pub isstd: Vec<u8>,
     pub isut: Vec<u8>,
